@@ -80,7 +80,7 @@ fn validate_capset(s: &str) -> Result<(), Error> {
     }
 
     for part in s.split(',') {
-        if !CAPS.contains(&part.to_uppercase().as_str()) {
+        if !CAPS.contains(&part.to_ascii_uppercase().as_str()) {
             return Err(Error::InvalidFileCaps(format!("Unknown cap {}", &part)));
         }
     }
